@@ -284,3 +284,47 @@ func caseMapSites(pkgs map[string]*pkgInfo) {
 		"every call of a case-mapping function that the model treats as an ASCII byte map, with its dominating conditions or its constant argument: pkg.func|call|guards (sorted)")
 	add("cors_caseMapConstArgs", ": List Bytes := "+leanBytesList(consts), "the constant arguments of those calls (sorted)")
 }
+
+// errorTemplates: for every `Error() string` method of package cfgerrors, the constant each `return` starts from: a
+// string literal / constant, or the constant format of a `fmt.Sprintf(format, …)` — "Type|text"; "<not-constant>" for a
+// return of any other shape.  C05 proves that each begins with `cors: ` (and a format that begins so yields a message that
+// begins so).
+func errorTemplates(pkgs map[string]*pkgInfo) {
+	p := pkgs["cfgerrors"]
+	if p == nil {
+		return
+	}
+	var out []string
+	for _, f := range p.files {
+		for _, d := range f.Decls {
+			fd, ok := d.(*ast.FuncDecl)
+			if !ok || fd.Body == nil || fd.Name.Name != "Error" || fd.Recv == nil || len(fd.Recv.List) != 1 {
+				continue
+			}
+			recv := exprText(fd.Recv.List[0].Type)
+			ast.Inspect(fd.Body, func(n ast.Node) bool {
+				if _, isLit := n.(*ast.FuncLit); isLit {
+					return false
+				}
+				rs, ok := n.(*ast.ReturnStmt)
+				if !ok || len(rs.Results) != 1 {
+					return true
+				}
+				e := rs.Results[0]
+				text := "<not-constant>"
+				if tv, ok := p.info.Types[e]; ok && tv.Value != nil && tv.Value.Kind() == constant.String {
+					text = constant.StringVal(tv.Value)
+				} else if call, ok := e.(*ast.CallExpr); ok && exprText(call.Fun) == "fmt.Sprintf" && len(call.Args) > 0 {
+					if tv, ok := p.info.Types[call.Args[0]]; ok && tv.Value != nil && tv.Value.Kind() == constant.String {
+						text = constant.StringVal(tv.Value)
+					}
+				}
+				out = append(out, recv+"|"+text)
+				return true
+			})
+		}
+	}
+	sort.Strings(out)
+	add("cfgerrors_messageTemplates", ": List Bytes := "+leanBytesList(out),
+		"the constant every return of an Error() method of cfgerrors starts from (literal, or format of fmt.Sprintf): Type|text (sorted)")
+}
